@@ -176,6 +176,20 @@ def threaded_sample(ctx, n):
                 ctx.failure("threaded-spurious-exception:" + where, "blocking emit(%d) raised %s" % (x, raised), case)
 
 
+def flush(ctx, batch):
+    """Model comparison + oracles for a chunk of cases (chunked to keep memory bounded in the thorough tier)."""
+    from .. import common
+    lines, spans = [], []
+    for case, _ in batch:
+        ml = graphcheck.model_lines(case)
+        spans.append((len(lines), len(lines) + len(ml)))
+        lines += ml
+    answers = common.lean_driver("Graph", lines) if lines else []
+    for (case, obs), (a, b) in zip(batch, spans):
+        evaluate(ctx, case, obs, answers[a:b])
+    del batch[:]
+
+
 def run(ctx):
     from .. import common, gen_graph
     ctx.audit()
@@ -202,14 +216,9 @@ def run(ctx):
                                             opts={"p_weird": 0.08, "p_sinkfail": 0.25}, flavour=flavour)
         case["flavour"] = flavour
         batch.append((case, obs))
-    lines, spans = [], []
-    for case, _ in batch:
-        ml = graphcheck.model_lines(case)
-        spans.append((len(lines), len(lines) + len(ml)))
-        lines += ml
-    answers = common.lean_driver("Graph", lines)
-    for (case, obs), (a, b) in zip(batch, spans):
-        evaluate(ctx, case, obs, answers[a:b])
+        if len(batch) >= 500:
+            flush(ctx, batch)
+    flush(ctx, batch)
     ctx.coverage["rule"] = ("pipelines of directly connected nodes (partition replaced: it is a buffering node) in blocking and asynchronous mode; "
                             "35% of the function slots hold a function failing on a residue class, 8% ill-typed functions, 8% ill-typed values, 25% of "
                             "consumer completions are failures. Non-trivial: at least one user function raised or an emit reported an exception.")
